@@ -69,7 +69,7 @@ func (*c09) Decode(raw []byte) (any, error) { return decodeInto[C09Scenario](raw
 var c09Fixtures = []string{"RFC5322-A1-1.eml", "RFC5322-A1-1-invalid-from.eml", "invoice.eml"}
 
 func (p *c09) Gen(seed uint64, i int, tier string) (any, bool) {
-	n, per := 1200, 250
+	n, per := 3000, 300
 	if tier == "thorough" {
 		n, per = 100000, 300
 	}
